@@ -89,10 +89,10 @@ func (r *zstdByteStreamChunkReader) Read() ([]byte, error) {
 	buf := make([]byte, r.readChunkSize)
 	n, err := r.decoder.Read(buf)
 	if n > 0 {
-		if err != nil && err != io.EOF {
-			err = nil
-		}
-		return buf[:n], err
+		// ChunkReaders either return data or an error. Any error
+		// (including io.EOF) is returned again by the decoder
+		// on the next call.
+		return buf[:n], nil
 	}
 	return nil, err
 }
